@@ -165,6 +165,30 @@ class C05(HistoryCheck):
                 n0 = sorted(n for n in a if a[n] != b.get(n))[0]
                 ctx.violate(dict(sig, invariant="update_equals_chained_with"),
                             {"op": op, "attr": n0, "chained": strip_addr(repr(a[n0]))[:200], "update": strip_addr(repr(b.get(n0)))[:200]}, idx)
+        # ---- metamorphic: transform(a=f, b=g) == transform_a(f).transform_b(g), in keyword order ---------------
+        if fam == "toplevel" and verb == "transform" and not op.get("args"):
+            fns = [(n, v) for n, v in kw.items() if not n.startswith("_")]
+            if len(fns) >= 2:
+                cur = clone_alt
+                ok = True
+                for n, v in fns:
+                    if n not in cur.__dict__:
+                        # a missing value: transform_<a> builds one first where the top-level form hands the
+                        # sentinel to the function -- the two are not comparable there
+                        ok = False
+                        break
+                    try:
+                        cur = getattr(cur, f"transform_{n}")(world.build(v, False))
+                        ctx.evaluations += 1
+                    except Exception:
+                        ok = False
+                        break
+                if ok and managed_abs(world, cur) != got:
+                    a, b = managed_abs(world, cur), got
+                    n0 = sorted(n for n in a if a[n] != b.get(n))[0]
+                    ctx.violate(dict(sig, invariant="transform_equals_chained_transform"),
+                                {"op": op, "attr": n0, "chained": strip_addr(repr(a[n0]))[:200],
+                                 "transform": strip_addr(repr(b.get(n0)))[:200]}, idx)
         # ---- metamorphic: nested keywords == constructing the nested value first ---------------------------
         if fam == "scalar" and verb == "with" and akind == "leaf" and form == "kw":
             nested_kw = {k: world.build(v, False) for k, v in kw.items() if not k.startswith("_")}
@@ -241,7 +265,7 @@ class C05(HistoryCheck):
         want = dict(before)
         changed = []
         if fam == "scalar":
-            if any(isinstance(a, tuple) and a[0] == "sent" for a in margs + list(mkw.values())):
+            if any(isinstance(a, tuple) and len(a) == 2 and a[0] == "sent" for a in margs + list(mkw.values())):
                 raise Unmodelled("sentinel argument")
             want[aname] = model.expect_attr(aname, verb, before_real[aname], margs, mkw)
             changed = [aname]
@@ -253,7 +277,7 @@ class C05(HistoryCheck):
             if margs:
                 raise Unmodelled("update with a replacement instance")
             for n, v in mkw.items():
-                if isinstance(v, tuple) and v[0] == "sent":
+                if isinstance(v, tuple) and len(v) == 2 and v[0] == "sent":
                     if v[1] in ("MISSING", "UNCHANGED"):
                         continue
                     raise Unmodelled("sentinel")
